@@ -59,6 +59,9 @@ type Ev struct {
 	CidOK bool   `json:"cidok"`
 	State string `json:"state"`
 	Thr   int64  `json:"thr"`
+	// ModCreate: what the module does from inside its response / state callback
+	RResp  string `json:"rresp"`
+	RState string `json:"rstate"`
 
 	Rid  [4]int64 `json:"rid"`
 	Kind string   `json:"kind"`
@@ -278,6 +281,8 @@ func (c *Chain) Apply(e *Ev) bool {
 		if out.OK {
 			e.ID = c.NCtx
 			e.CidOK = c.newContextIDMatches()
+			c.React[e.ID] = [2]string{e.RResp, e.RState}
+			c.ReactCons[e.ID] = e.Signer
 		}
 	case "Pause":
 		out = c.Deliver(types.NewMsgPauseRequestContext(c.CtxID(e.ID), c.A(e.Signer)))
